@@ -14,7 +14,7 @@ Non-trivial = BAD leaves >=1 structure or meta block open or has trailing text, 
     assumptions: &["buffer numbers in error locations are not compared (the rejected text legitimately occupies a source slot)", "heap and code lengths are not compared (a rejected `var` may leave an unreachable cell); behaviour through the dictionary, variables, stack and output is"],
     max_len: 300,
     quick_cases: 40_000,
-    thorough_cases: 1_500_000,
+    thorough_cases: 500_000,
     case,
     systematic: None,
     both_profiles_quick: false,
